@@ -47,6 +47,7 @@ def main(argv=None) -> int:
         mod.run(chk)
         if args.tier == "thorough" and hasattr(mod, "run_thorough"):
             mod.run_thorough(chk)
+        chk.raise_deferred()
         if args.tier == "thorough" and not args.repo:
             from . import selftest
             selftest.run_for(chk, prop)
